@@ -339,7 +339,7 @@ func (l *Loader) applyParsedResponseToEntries(prepared *preparedFetch, response 
 	if l.allowCustomExtensionProperties {
 		extensions := response.Get("extensions")
 		if astjson.ValueIsNonNull(extensions) && extensions.Type() == astjson.TypeObject {
-			l.subgraphExtensions = append(l.subgraphExtensions, extensions.GetObject())
+			l.collectSubgraphExtensions(prepared.item, res, extensions.GetObject())
 		}
 	}
 	entryErrors, err := l.partitionResponseErrors(prepared, response)
